@@ -52,6 +52,9 @@ func c20Families() []c20Family {
 		{name: "array store index through a nested path", build: func(n int) (string, string, string) {
 			return fmt.Sprintf(`BEGIN { print "before"; o.list[%d].k = 1; print o.list.length() }`, n), "", fmt.Sprintf("before\n%d\n", n+1)
 		}, lo: 1000000 - 1, hi: 2000000, max: 2100000},
+		{name: "array store index on an array that already has elements", build: func(n int) (string, string, string) {
+			return fmt.Sprintf(`BEGIN { print "before"; a = [0, 0, 0]; a[%d] = 1; print a.length() }`, n+2), "", fmt.Sprintf("before\n%d\n", n+3)
+		}, lo: 1000000 - 3, hi: 2000000, max: 2100000},
 		{name: "printf width", build: func(n int) (string, string, string) {
 			return fmt.Sprintf(`BEGIN { print "before"; printf("%%%ds", "x"); print "" }`, n), "", "before\n" + strings.Repeat(" ", n-1) + "x\n"
 		}, lo: 65535, hi: 65537, max: 70000, exact: 65536},
@@ -242,6 +245,12 @@ func c20Singles() []c20Spec {
 			add(fmt.Sprintf(`BEGIN { print "before"; a = []; a[%d] = 1; print "after" }`, n), "REFUSED")
 		}
 	}
+	// the limit bounds the index reached, not the size of one step
+	add(`BEGIN { print "before"; a = []; a[1000000] = "x"; a[1500000] = "y"; print "after" }`, "REFUSED")
+	add(`BEGIN { print "before"; a = []; for (i = 1; i <= 4; i++) { a[i * 400000] = i } print "after" }`, "REFUSED")
+	add(`BEGIN { print "before"; a = [0, 0]; a[1048578] = 1; print "after" }`, "REFUSED")
+	add(`{ print "before"; $.xs[1048577] = 1; print "after" }`, "REFUSED:input2")
+	add(`BEGIN { print "before"; a = []; a[1048576] = 1; a.push(2); a.push(3); print a.length() }`, "before\n1048579\n")
 	add(`BEGIN { print "before"; a = [1, 2]; a[-1] = 9; a[0.9] = 8; a[-0.5] = 7; print a, a[1.5], a[-2] }`, "before\n[7, 9] 9 7\n")
 	add(`BEGIN { print "before"; a = [1, 2]; a[-3] = 9; print "after" }`, "REFUSED")
 	add(`BEGIN { print "before"; a = []; print a[-1] }`, "REFUSED")
@@ -261,6 +270,10 @@ func c20Single(c *fw.Ctx, s c20Spec) *fw.Violation {
 	if strings.HasSuffix(want, ":input") {
 		want = strings.TrimSuffix(want, ":input")
 		input = "[1]"
+	}
+	if strings.HasSuffix(want, ":input2") {
+		want = strings.TrimSuffix(want, ":input2")
+		input = `{"xs":[1,2,3]}`
 	}
 	so, se, ex := c20Exec(s.Prog, input)
 	c.Evals++
@@ -295,7 +308,7 @@ func init() {
 	nf := len(c20Families())
 	fw.Register(&fw.Prop{
 		ID: "C20",
-		Rule: "one-dimensional sweeps across each limit on the real binary in a child process under ulimit -v: recursion depth for 8 shapes (direct, mutual of two and three, through a match body, an argument, a for-in body, from a pattern rule, from BEGINFILE), array store index directly and through a nested pending path, printf width of both signs, JSON array and object nesting; " +
+		Rule: "one-dimensional sweeps across each limit on the real binary in a child process under ulimit -v: recursion depth for 8 shapes (direct, mutual of two and three, through a match body, an argument, a for-in body, from a pattern rule, from BEGINFILE), array store index directly, through a nested pending path and on an array that already has elements, printf width of both signs, JSON array and object nesting; " +
 			"the refusal point is found by bisection, must lie in the documented range (a few thousand frames; about a million; exactly 65536; the decoder's limit) and the sweep checks monotonicity: the exact value below it, an ordinary runtime / JSON error with the earlier output kept and a small exit status from it on; " +
 			"plus single cases: index magnitudes 2^k and 2^k +- 1 up to 2^62, 2^63, 2^64, 10^300, reads past the limit, negative and fractional indices, unbounded recursion of four shapes, 20-digit widths, and the things that must still work (a width of a few thousand, a thousand-element array, recursion a thousand deep); states = refusal points found; non-trivial = same",
 		Plan: func(t fw.Tier) int { return nf*8 + 1 },
